@@ -12,6 +12,7 @@ import (
 	corev1 "k8s.io/api/core/v1"
 	apiequality "k8s.io/apimachinery/pkg/api/equality"
 	metav1 "k8s.io/apimachinery/pkg/apis/meta/v1"
+	"k8s.io/apimachinery/pkg/runtime"
 
 	configv1alpha1 "github.com/furiko-io/furiko/apis/config/v1alpha1"
 	execution "github.com/furiko-io/furiko/apis/execution/v1alpha1"
@@ -1515,6 +1516,9 @@ func (m *Monitors) onQuiescent() {
 			}
 		}
 	}
+	if !delayed["job"] {
+		m.pendingReaped(jobs, time.Second, "and the controllers are idle")
+	}
 	for _, o := range jcs {
 		jc := o.(*execution.JobConfig)
 		var act, que []string
@@ -1590,6 +1594,32 @@ func (m *Monitors) onQuiescent() {
 	}
 }
 
+// pendingReaped judges C12's pending-timeout clause on the Jobs given: a listed task that has not begun
+// running `margin` after its pending deadline must have been asked to stop (it is then counted as a failed
+// attempt; that part is C08's and C10's). Only Jobs that are running undisturbed are judged: killed, deleted
+// and finished Jobs stop their tasks for other reasons.
+func (m *Monitors) pendingReaped(jobs []runtime.Object, margin time.Duration, when string) {
+	now := m.w.Clk.Now()
+	cfg := m.jobCfg()
+	for _, x := range jobs {
+		j := x.(*execution.Job)
+		jr := m.jobs[string(j.UID)]
+		if jr == nil || j.Status.StartTime.IsZero() || j.Status.Condition.Finished != nil || j.Spec.KillTimestamp != nil || j.DeletionTimestamp != nil {
+			continue
+		}
+		pt := pendingTimeout(j, cfg)
+		if pt <= 0 {
+			continue
+		}
+		for _, r := range jr.Pods {
+			m.Evals["C12_pending"]++
+			if r.live() && r.Recorded && !r.EverRunning && r.DelReqAt.IsZero() && now.Sub(r.Created.Add(pt)) >= margin {
+				m.fail("C12", "pending-task-not-reaped", "task %s of Job %s was created at %v, has not begun running, and its deletion was never requested although the pending timeout of %v ran out %v ago %s", r.Name, j.Name, r.Created.Sub(Epoch), pt, now.Sub(r.Created.Add(pt)), when)
+			}
+		}
+	}
+}
+
 // Fixpoint evaluates the bounded-liveness clauses. Call after Run returned at a fixpoint.
 func (m *Monitors) Fixpoint() {
 	w := m.w
@@ -1600,6 +1630,7 @@ func (m *Monitors) Fixpoint() {
 	}
 	jobs := w.API.List(KJob)
 	cfg := m.jobCfg()
+	m.pendingReaped(jobs, 2*time.Minute, "(end of the run)")
 	for _, c := range w.Inc.Ctls {
 		m.Evals["C20_requeue"]++
 		if n, item := c.Q.PendingRequeues(); n > 40 {
